@@ -291,10 +291,10 @@ pub(super) fn anchor_split(
         let mut new_name = old_name;
         // verification hook: what reaches the regenerate-until-unused loop
         #[cfg(prqlc_verif)]
-        let (verif_old, verif_used) = {
+        let (verif_old, verif_used, verif_gen_before) = {
             let mut used: Vec<String> = used_new_names.iter().cloned().collect();
             used.sort();
-            (new_name.clone(), used)
+            (new_name.clone(), used, ctx.col_name.clone().gen())
         };
         if let Some(new) = &mut new_name {
             if used_new_names.contains(new) {
@@ -312,7 +312,8 @@ pub(super) fn anchor_split(
         #[cfg(prqlc_verif)]
         log::debug!(
             "verif:namegen {}",
-            serde_json::json!({"site": "anchor_split", "old": verif_old, "used": verif_used, "new": new_name.clone()})
+            serde_json::json!({"site": "anchor_split", "old": verif_old, "used": verif_used, "new": new_name.clone(),
+                "gen_before": verif_gen_before, "gen_after": ctx.col_name.clone().gen()})
         );
 
         let old_def = ctx.column_decls.get(old_cid).unwrap();
